@@ -29,6 +29,18 @@ CHECKS["C10"] = dict(
    note="Trusted: Lean kernel + Mathlib, standard axioms, compiled model driver, Python harness. Comparison tolerance 1e-12*(n+1) plus the proven enclosure error; the correspondence model<->code is sampled (phase lists, points).",
    technique="Lean 4 proof (definition = model, enclosure soundness) + differential correspondence",
    design="7/C10")
+CHECKS["C14"] = dict(
+   category="proof",
+   text="Lean theorems (QSP/Properties/C14.lean) prove, for EVERY value the numerical oracles (least-squares fit, Taylor approximation, optimiser, Bessel and binomial values) might return, that the generators' bookkeeping leaves all coefficients of the opposite parity exactly zero in both bases (parity mask; Chebyshev sums of one parity through cheb2poly; odd x even product), returns as many coefficients as the fit, and refuses a degree of the wrong parity. Each run re-checks the audit, feeds the oracle values recorded from the real run into the model and compares its output with generate() for all 13 generators x both bases x the 4 option combinations, and evaluates the property's predicate on every output.",
+   note="Trusted: Lean kernel + Mathlib, standard axioms, model driver, Python harness (oracle recording by wrapping chebfit / approximate_taylor_polynomial / the optimiser / jv / binom in the harness process). Finiteness of the oracle outputs themselves is observed per run, not proved; argument tuples are sampled.",
+   technique="Lean 4 proof about an oracle-parametrised model + differential correspondence with recorded oracle values",
+   design="7/C14")
+CHECKS["C17"] = dict(
+   category="proof",
+   text="Lean theorems (QSP/Properties/C17.lean) prove in the oracle-parametrised generator model, for every oracle value, that the coefficients do not depend on return_scale, that the bounded coefficients are exactly `scale` times the unbounded ones with `scale` the returned value, that the result is a pair iff ensure_bounded and return_scale, and that the monomial and Chebyshev outputs of the cosine / sine / 1/x generators denote the same polynomial. Each run re-checks the audit and compares pairs of real generate() calls under the option combinations, plus the model on recorded oracle values.",
+   note="Trusted: as C14. Across-basis comparison converts the monomial output exactly (model poly2cheb) and compares within the conversion's backward-error scale, degree <= 39.",
+   technique="Lean 4 proof about an oracle-parametrised model + pairwise differential comparison of real runs",
+   design="7/C17")
 NOT_APPLICABLE = {}
 
 def main():
